@@ -88,6 +88,11 @@ Theorem C19_child_status_is_last_request_in_histories : forall os1 os2 st1 st2 s
   child_last st3 pc ch = Some x.
 Proof. exact child_status_is_last_request_in_histories. Qed.
 
+Theorem C19_child_message_recorded : forall st pc ch m x,
+  recorded m = Some x ->
+  exists cs, view_child (deliver st pc ch m) pc ch = Some cs /\ c_last cs = Some x /\ c_susp cs = false.
+Proof. exact child_message_recorded. Qed.
+
 (** Restart: the cache rebuilt from the files shows what the cache showed, for handles without '/' and '\';
     the invariant that makes this true holds initially and is kept by every operation, whatever its handles. *)
 Theorem C19_restart_preserves : forall st, Sync st -> forall ca, good ca ->
@@ -144,6 +149,7 @@ Print Assumptions C19_published_unchanged_by_failure.
 Print Assumptions C19_shadow_not_self_healing_refuted.
 Print Assumptions C19_child_status_is_last_request.
 Print Assumptions C19_child_status_is_last_request_in_histories.
+Print Assumptions C19_child_message_recorded.
 Print Assumptions C19_restart_preserves.
 Print Assumptions C19_sync_init.
 Print Assumptions C19_sync_step.
